@@ -55,6 +55,25 @@ type c19Ctx struct {
 	kind                    string
 	binding, typ, we, group string // "" = field absent
 	from, to                string
+	pad                     int  // > 0: the context carries a payload of about pad bytes (objects / snapshots / review)
+	decoy                   bool // nested objects repeat the keys the framework reads (binding, type, watchEvent, groupName)
+}
+
+// c19Payload builds a list of rendered objects of about `bytes` bytes of compact JSON. Every item
+// repeats, one level down, the keys the dispatch reads at the top level of a context (with values
+// that would select another handler), so a reader that is not anchored at the top level shows up.
+func c19Payload(bytes int) []any {
+	var items []any
+	for n, i := 0, 0; n < bytes; i++ {
+		it := map[string]any{
+			"object": map[string]any{"apiVersion": "v1", "kind": "Pod",
+				"metadata": map[string]any{"name": fmt.Sprintf("pod-%06d", i), "namespace": "default"}},
+			"filterResult": map[string]any{"binding": "decoy", "type": "Schedule", "watchEvent": "Deleted", "groupName": "decoy", "vid": 4242},
+		}
+		items = append(items, it)
+		n += 215 // compact size of one item
+	}
+	return items
 }
 
 func (x c19Ctx) json(vid int) map[string]any {
@@ -82,6 +101,23 @@ func (x c19Ctx) json(vid int) map[string]any {
 	if x.typ == "Synchronization" {
 		m["objects"] = []any{}
 	}
+	if x.decoy && x.pad == 0 {
+		m["filterResult"] = map[string]any{"binding": "decoy", "type": "Schedule", "watchEvent": "Deleted", "groupName": "decoy", "vid": 4242}
+	}
+	if x.pad > 0 {
+		// the payload goes where shell-operator puts the bulk of a context of this type
+		pl := c19Payload(x.pad)
+		switch {
+		case x.typ == "Synchronization":
+			m["objects"] = pl
+		case x.typ == "Event":
+			m["object"] = map[string]any{"kind": "ConfigMap", "data": map[string]any{"items": pl}}
+		case x.typ == "Validating" || x.typ == "Mutating" || x.typ == "Conversion":
+			m["review"] = map[string]any{"request": map[string]any{"uid": "u-1", "objects": pl}}
+		default:
+			m["snapshots"] = map[string]any{"pods": pl}
+		}
+	}
 	return m
 }
 
@@ -93,7 +129,23 @@ func dash(s string) string {
 }
 
 func (x c19Ctx) line() string {
-	return fmt.Sprintf("ctx b=%s t=%s w=%s g=%s from=%s to=%s", dash(x.binding), dash(x.typ), dash(x.we), dash(x.group), dash(x.from), dash(x.to))
+	l := fmt.Sprintf("ctx b=%s t=%s w=%s g=%s from=%s to=%s", dash(x.binding), dash(x.typ), dash(x.we), dash(x.group), dash(x.from), dash(x.to))
+	if x.pad > 0 {
+		l += fmt.Sprintf(" sz=%dK", x.pad/1024) // not read by the model: the dispatch does not depend on the size
+	}
+	return l
+}
+
+func (x c19Ctx) sizeBucket() string {
+	switch {
+	case x.pad == 0:
+		return "small"
+	case x.pad <= 128*1024:
+		return "<=128K"
+	case x.pad <= 512*1024:
+		return "128K-512K"
+	}
+	return ">512K"
 }
 
 // c19Cands is the harness's own copy of the documented names, used only to *generate* interesting
@@ -178,9 +230,17 @@ type c19Case struct {
 	defined   []string
 	failIdx   []int
 	failNames []string
-	failMode  string // how a failing handler ends: return3 | exit2 | false
+	failMode  string // how a failing handler ends: return3 | exit2 | false | pipefail | nounset | cmdsubst
 	args      []string
+	acts      map[string]string // what else a handler does (c19Acts), by function name; absent = nothing
+	stdin     []string          // the lines on the hook's standard input (nil: /dev/null, as the operator starts hooks)
 }
+
+// c19Acts: things a handler body may do besides ending with a status. None of them may change which
+// handler the following contexts get: reading the standard input the handler shares with the
+// framework (read = one line, cat = everything), assigning the framework's variables, redefining /
+// unsetting functions, switching strict mode off, changing directory, closing stdin, printing.
+var c19Acts = []string{"read", "cat", "vars", "undef", "cd", "opts", "noise", "closein"}
 
 // c19Run materialises the hook and runs it with real bash. Returns the cands lines (one per
 // context), the observed log, config flag, exit status.
@@ -191,6 +251,9 @@ func c19Run(r *Run, c *Case, k c19Case, tag string) {
 		return
 	}
 	dir := filepath.Join(r.Scratch, fmt.Sprintf("c19-%d-%s", c.Idx, tag))
+	if a, err := filepath.Abs(dir); err == nil {
+		dir = a // a handler may `cd`
+	}
 	_ = os.MkdirAll(dir, 0o755)
 	defer os.RemoveAll(dir)
 	var arr []any
@@ -209,14 +272,30 @@ func c19Run(r *Run, c *Case, k c19Case, tag string) {
 	sb.WriteString("#!/bin/bash\nsource " + lib + "\n")
 	sb.WriteString("function __config__() { echo 'VERIF-CONFIG-MARKER configVersion: v1'; }\n")
 	sb.WriteString(`function __verif_handler() {
-  echo "$BINDING_CONTEXT_CURRENT_INDEX $1 $(context::jq -r '.vid') $BINDING_CONTEXT_CURRENT_BINDING" >> "$VERIF_LOG"
+  local seen=-
+  case "${2:-}" in
+    read) if IFS= read -r seen; then seen="l:$seen"; else seen=eof; fi;;
+    cat) seen="a:$(cat | tr '\n' '+')";;
+  esac
+  echo "$BINDING_CONTEXT_CURRENT_INDEX $1 $(context::jq -r '.vid') $BINDING_CONTEXT_CURRENT_BINDING $seen" >> "$VERIF_LOG"
   local bad=no
   case " $VERIF_FAILIDX " in *" $BINDING_CONTEXT_CURRENT_INDEX "*) bad=yes;; esac
   case " $VERIF_FAILNAMES " in *" $1 "*) bad=yes;; esac
+  case "${2:-}" in
+    vars) i=99; CONTEXT_LENGTH=0; HANDLERS=; handlers=(); export BINDING_CONTEXT_CURRENT_INDEX=0 BINDING_CONTEXT_CURRENT_BINDING=onStartup BINDING_CONTEXT_PATH=/nonexistent BINDING_CONTEXT_CURRENT=x;;
+    undef) unset -f __main__ __on_startup hook::_get_possible_handler_names context::jq || true; function __main__() { exit 9; };;
+    cd) cd /;;
+    opts) set +e +u; set +o pipefail; shopt -u inherit_errexit; false; true | false; set -Eeuo pipefail; shopt -s inherit_errexit;;
+    noise) echo 0; echo __main__; echo "noise on stderr" >&2;;
+    closein) exec 0<&-;;
+  esac
   if [[ "$bad" == yes ]]; then
     case "$VERIF_FAILMODE" in
       return3) return 3;;
       exit2) exit 2;;
+      pipefail) false | true; echo "not reached" >> "$VERIF_LOG";;
+      nounset) echo "$VERIF_NO_SUCH_VARIABLE" > /dev/null; echo "not reached" >> "$VERIF_LOG";;
+      cmdsubst) bad=$(false; echo y); echo "not reached" >> "$VERIF_LOG";;
       *) false; echo "not reached" >> "$VERIF_LOG";;
     esac
   fi
@@ -224,7 +303,7 @@ func c19Run(r *Run, c *Case, k c19Case, tag string) {
 }
 `)
 	for _, n := range k.defined {
-		fmt.Fprintf(&sb, "function %s() { __verif_handler '%s'; }\n", n, n)
+		fmt.Fprintf(&sb, "function %s() { __verif_handler '%s' '%s'; }\n", n, n, k.acts[n])
 	}
 	sb.WriteString(`if [[ "${VERIF_MODE:-}" == "cands" ]]; then
   n=$(context::global::jq -r 'length')
@@ -246,6 +325,9 @@ hook::run "$@"
 		defer cancel()
 		cmd := exec.CommandContext(ctx, "bash", append([]string{hook}, args...)...)
 		cmd.Dir = dir
+		if mode == "" && len(k.stdin) > 0 {
+			cmd.Stdin = strings.NewReader(strings.Join(k.stdin, "\n") + "\n")
+		}
 		var fi []string
 		for _, i := range k.failIdx {
 			fi = append(fi, fmt.Sprint(i))
@@ -271,6 +353,15 @@ hook::run "$@"
 	c.Op("def "+joinStrs(k.defined), "ok")
 	c.Op("failidx "+joinInts(k.failIdx), "ok")
 	c.Op("failnames "+joinStrs(k.failNames), "ok")
+	var acts []string
+	for _, n := range k.defined {
+		if a := k.acts[n]; a != "" {
+			acts = append(acts, n+"="+a)
+			c.Note("act:" + a)
+		}
+	}
+	c.Op("acts "+joinStrs(acts), "ok")
+	c.Op("stdin "+joinStrs(k.stdin), "ok")
 
 	// correspondence of the candidate table: what the real function prints for each context
 	cands := make([]string, 0, len(k.ctxs))
@@ -304,6 +395,7 @@ hook::run "$@"
 		}
 		c.Op(x.line(), a)
 		c.Note("kind:" + x.kind)
+		c.Note("size:" + x.sizeBucket())
 	}
 
 	_ = os.Remove(logPath)
@@ -312,7 +404,7 @@ hook::run "$@"
 		c.Inconcl = "bash timed out"
 		return
 	}
-	var entries []string
+	var entries, seen []string
 	lb, _ := os.ReadFile(logPath)
 	for _, l := range strings.Split(strings.TrimSpace(string(lb)), "\n") {
 		if l == "" {
@@ -337,6 +429,11 @@ hook::run "$@"
 			}
 		}
 		entries = append(entries, idx+":"+name)
+		if len(f) >= 5 {
+			seen = append(seen, f[4])
+		} else {
+			seen = append(seen, "?")
+		}
 	}
 	config := 0
 	if strings.Contains(out, "VERIF-CONFIG-MARKER") {
@@ -347,7 +444,9 @@ hook::run "$@"
 		ok = 1
 	}
 	obs := fmt.Sprintf("log=%s config=%d ok=%d", joinStrs(entries), config, ok)
-	c.Op(strings.TrimSpace("run "+strings.Join(k.args, " ")), obs)
+	// correspondence only: what each invoked handler found on the standard input it shares with the
+	// framework (the framework itself reads nothing from it)
+	c.Op(strings.TrimSpace("run "+strings.Join(k.args, " ")), obs+" in="+joinStrs(seen))
 	if wellFormed {
 		c.Oracle(fmt.Sprintf("run args=%s %s", joinStrs(k.args), obs))
 	}
@@ -435,6 +534,37 @@ func runC19(r *Run) {
 		c19Run(r, c, c19Case{ctxs: []c19Ctx{c19Make("startup", "", "")}, defined: []string{"__on_startup"}, args: []string{"x", "--config"}, failMode: "exit2"}, "b")
 	})
 
+	r.One(4, func(c *Case, _ *Rng) {
+		c.Desc = "corpus: one context far above 128 KiB (Synchronization with ~2000 objects) between two small ones, specific handlers and __main__ defined"
+		c.Nontrivial = true
+		big := c19Make("sync", "pods", "")
+		big.pad = 420 * 1024
+		c19Run(r, c, c19Case{ctxs: []c19Ctx{c19Make("schedule", "cron", ""), big, c19Make("deleted", "pods", "")},
+			defined: []string{"__main__", "__on_kubernetes::pods::deleted", "__on_kubernetes::pods::synchronization", "__on_schedule::cron"}, failMode: "return3"}, "a")
+	})
+	r.One(5, func(c *Case, _ *Rng) {
+		c.Desc = "corpus: contexts just below and just above 128 KiB, only specific handlers defined (no __main__)"
+		c.Nontrivial = true
+		a, b := c19Make("group", "pods", "g1"), c19Make("validating", "cfg.v1", "")
+		a.pad, b.pad = 126*1024, 130*1024
+		c19Run(r, c, c19Case{ctxs: []c19Ctx{a, b}, defined: []string{"__on_group::g1", "__on_validating::cfg.v1"}, failMode: "exit2"}, "a")
+	})
+	r.One(6, func(c *Case, _ *Rng) {
+		c.Desc = "corpus: handlers that read their standard input (cat, read) with the hook started on /dev/null, four contexts"
+		c.Nontrivial = true
+		c19Run(r, c, c19Case{ctxs: []c19Ctx{c19Make("sync", "pods", ""), c19Make("added", "pods", ""), c19Make("schedule", "cron", ""), c19Make("deleted", "pods", "")},
+			defined: []string{"__main__", "__on_kubernetes::pods", "__on_schedule::cron"},
+			acts:    map[string]string{"__on_kubernetes::pods": "read", "__on_schedule::cron": "cat"}, failMode: "return3"}, "a")
+	})
+	r.One(7, func(c *Case, _ *Rng) {
+		c.Desc = "corpus: the hook's standard input carries lines; handlers read one line / everything; the third handler fails after reading"
+		c.Nontrivial = true
+		c19Run(r, c, c19Case{ctxs: []c19Ctx{c19Make("schedule", "a_b", ""), c19Make("modified", "pods", ""), c19Make("mutating", "main", ""), c19Make("startup", "", "")},
+			defined: []string{"__main__", "__on_kubernetes::pods::added_or_modified", "__on_mutating::main", "__on_schedule::a_b"},
+			acts:    map[string]string{"__on_schedule::a_b": "read", "__on_kubernetes::pods::added_or_modified": "read", "__on_mutating::main": "cat", "__main__": "read"},
+			stdin:   []string{"0", "7", "S2", "3"}, failIdx: []int{2}, failMode: "false"}, "a")
+	})
+
 	// (1) exhaustive single-context cases
 	type single struct {
 		kind string
@@ -457,11 +587,44 @@ func runC19(r *Run) {
 	r.Exhaust = true
 	r.Extra["exhaustive_scope"] = fmt.Sprintf("all %d (context kind x subset of its candidates + __main__) single-context cases", len(singles))
 
+	// (1b) every kind x {just above 128 KiB, far above} x {specific handlers + __main__, specific only}:
+	// a small context first, then the large one, then a small one again
+	type sized struct {
+		kind string
+		pad  int
+		main bool
+	}
+	var sizeds []sized
+	for _, kd := range c19Kinds {
+		for _, pad := range []int{132 * 1024, 300 * 1024} {
+			for _, m := range []bool{true, false} {
+				sizeds = append(sizeds, sized{kd, pad, m})
+			}
+		}
+	}
+	r.Extra["large_context_cases"] = len(sizeds)
+	r.Cases(200, len(sizeds), 0, func(c *Case, rng *Rng) {
+		z := sizeds[c.Idx-200]
+		x := c19Make(z.kind, PickOne(rng, bindings), PickOne(rng, groups))
+		x.pad = z.pad + rng.Intn(8*1024)
+		pre, post := c19Make("schedule", "cron", ""), c19Make("added", "cfg.v1", "")
+		def := append(append(append([]string{}, pre.cands()...), x.cands()[rng.Intn(len(x.cands())):]...), post.cands()[1:]...)
+		if z.main {
+			def = append(def, "__main__")
+		}
+		c.Desc = fmt.Sprintf("large %s %dK main=%v", z.kind, x.pad/1024, z.main)
+		c.Nontrivial = true
+		c19Run(r, c, c19Case{ctxs: []c19Ctx{pre, x, post}, defined: uniqSorted(def), failMode: "return3"}, "a")
+	})
+
 	// (2) random arrays
 	allKinds := append(append([]string{}, c19Kinds...), "event-other", "event-none", "type-other", "no-type", "no-binding", "startup-typed", "conversion-plain")
 	r.Cases(1000, r.N(260, 3000), 0, func(c *Case, rng *Rng) {
 		var k c19Case
 		n := rng.Range(0, 6)
+		if rng.Chance(3) {
+			n = rng.Range(7, 24) // occasionally a long array (two-digit indices)
+		}
 		var pool []string
 		for i := 0; i < n; i++ {
 			kd := PickOne(rng, c19Kinds)
@@ -469,8 +632,18 @@ func runC19(r *Run) {
 				kd = PickOne(rng, allKinds)
 			}
 			x := c19Make(kd, PickOne(rng, bindings), PickOne(rng, groups))
+			x.decoy = rng.Chance(25)
 			k.ctxs = append(k.ctxs, x)
 			pool = append(pool, x.cands()...)
+		}
+		if n > 0 && rng.Chance(8) {
+			// one context with a large payload: below / just above / far above 128 KiB (the limit of one
+			// argument or environment string of execve), thorough also above 2 MiB
+			sizes := []int{100 * 1024, 129 * 1024, 136 * 1024, 200 * 1024, 420 * 1024, 1024 * 1024}
+			if r.Thorough() {
+				sizes = append(sizes, 2500*1024)
+			}
+			k.ctxs[rng.Intn(n)].pad = PickOne(rng, sizes) + rng.Intn(2048)
 		}
 		pMain := PickOne(rng, []int{0, 50, 90})
 		pC := PickOne(rng, []int{20, 50, 80})
@@ -490,6 +663,28 @@ func runC19(r *Run) {
 				def = append(def, d)
 			}
 		}
+		// near-name decoys: functions whose name extends / is a fragment of a candidate of one of the
+		// contexts (a lookup by prefix, substring or word instead of by exact name would pick them up)
+		if up := uniqSorted(pool); len(up) > 0 && rng.Chance(30) {
+			for j, m := 0, rng.Range(1, 3); j < m; j++ {
+				p := PickOne(rng, up)
+				switch rng.Intn(6) {
+				case 0:
+					def = append(def, p+"::extra")
+				case 1:
+					def = append(def, p+"-old")
+				case 2:
+					def = append(def, p+".bak")
+				case 3:
+					def = append(def, p+"_2")
+				case 4:
+					def = append(def, "x"+p)
+				case 5:
+					def = append(def, p[:len(p)-1])
+				}
+			}
+			c.Note("decoy:near-name")
+		}
 		k.defined = uniqSorted(def)
 		for i := 0; i < n; i++ {
 			if rng.Chance(12) {
@@ -499,7 +694,26 @@ func runC19(r *Run) {
 		if len(k.defined) > 0 && rng.Chance(15) {
 			k.failNames = []string{PickOne(rng, k.defined)}
 		}
-		k.failMode = PickOne(rng, []string{"return3", "exit2", "false"})
+		k.failMode = PickOne(rng, []string{"return3", "exit2", "false", "pipefail", "nounset", "cmdsubst"})
+		// what the handlers do besides ending with a status (c19Acts); the hook's stdin is /dev/null
+		// (as under the operator) or carries a few lines, some of which look like context indices
+		if pAct := PickOne(rng, []int{0, 0, 30, 70}); pAct > 0 {
+			k.acts = map[string]string{}
+			for _, d := range k.defined {
+				if rng.Chance(pAct) {
+					k.acts[d] = PickOne(rng, c19Acts)
+					if rng.Chance(50) {
+						k.acts[d] = PickOne(rng, []string{"read", "cat"})
+					}
+				}
+			}
+		}
+		if rng.Chance(30) {
+			k.stdin = []string{}
+			for i, m := 0, rng.Range(0, 5); i < m; i++ {
+				k.stdin = append(k.stdin, PickOne(rng, []string{"0", "1", "2", "5", "S" + fmt.Sprint(i), "__main__", "x-" + fmt.Sprint(i)}))
+			}
+		}
 		switch a := rng.Intn(20); {
 		case a == 0:
 			k.args = []string{"--config"}
@@ -544,9 +758,15 @@ func runC19(r *Run) {
 			case 3: // nothing for the second context
 				def = x.cands()
 			}
-			k := c19Case{ctxs: []c19Ctx{x, y}, defined: uniqSorted(def), failMode: PickOne(rng, []string{"return3", "exit2", "false"})}
+			k := c19Case{ctxs: []c19Ctx{x, y}, defined: uniqSorted(def), failMode: PickOne(rng, []string{"return3", "exit2", "false", "pipefail", "nounset", "cmdsubst"})}
 			if p.fail > 0 {
 				k.failIdx = []int{p.fail - 1}
+			}
+			if rng.Chance(40) {
+				k.acts = map[string]string{}
+				for _, d := range k.defined {
+					k.acts[d] = PickOne(rng, c19Acts)
+				}
 			}
 			c.Desc = fmt.Sprintf("pair %s,%s mode=%d fail=%d", p.a, p.b, p.mode, p.fail)
 			c.Nontrivial = true
